@@ -64,6 +64,61 @@ def gen_sequences(ctx, impl, n_seq, max_len, oor_fraction=0.0, per_class_boundar
     return cases
 
 
+def published_boundary_cases(impl):
+    """Operand values at the boundaries of the PUBLISHED ranges (the frozen table of the reference
+    encoder: 4 banks x 16 indices, imm8 0..255, int32 / addresses -2^31..2^31-1), whatever ranges the
+    regenerated layout of the tree under test happens to have.  One leaf at a boundary, the others at
+    a pairwise-distinct pattern."""
+    import ref_encoder as re_
+    vals = {re_.I8: [0, 255], re_.I32: [-2 ** 31, -1, 0, 2 ** 31 - 1], re_.A: [-2 ** 31, -1, 0, 2 ** 31 - 1]}
+    out = []
+    for fname in FLAVS:
+        table = re_.TABLES.get(fname, {})
+        for row in impl.t["flavours"][fname]["rows"]:
+            ref = table.get(row["mnemonic"])
+            if ref is None:
+                continue
+            kinds = ref[1]
+            if sum(re_.NLEAF[k] for k in kinds) != sum(ct_nleaves(row)):
+                continue  # the class no longer has the reference shape: C02's business
+            cands = []  # (leaf position, values)
+            pos = 0
+            for k in kinds:
+                if k == re_.R:
+                    cands += [(pos, [0, 3]), (pos + 1, [0, 15])]
+                elif k in (re_.I8, re_.I32, re_.A):
+                    cands += [(pos, vals[k])]
+                elif k == re_.E:
+                    cands += [(pos, vals[re_.A]), (pos + 1, [0, 3]), (pos + 2, [0, 15])]
+                elif k == re_.S:
+                    cands += [(pos, vals[re_.A]), (pos + 1, [0, 3]), (pos + 2, [0, 15]), (pos + 3, [0, 3]), (pos + 4, [0, 15])]
+                pos += re_.NLEAF[k]
+            base = []
+            for k in kinds:
+                j = len(base)
+                if k == re_.R:
+                    base += [(j + 1) % 4, (3 * j + 5) % 16]
+                elif k == re_.I8:
+                    base += [(37 * j + 129) % 256]
+                elif k in (re_.I32, re_.A):
+                    base += [0x01020304 * (j + 1) % (2 ** 31)]
+                elif k == re_.E:
+                    base += [0x01020304 * (j + 1) % (2 ** 31), (j + 1) % 4, (3 * j + 5) % 16]
+                else:
+                    base += [0x01020304 * (j + 1) % (2 ** 31), (j + 1) % 4, (3 * j + 5) % 16, (j + 2) % 4, (3 * j + 7) % 16]
+            for p, vs in cands:
+                for v in vs:
+                    lv = list(base)
+                    lv[p] = v
+                    out.append((fname, 1, 0, 0, [(row["name"], lv)], "published-boundary"))
+    return out
+
+
+def ct_nleaves(row):
+    import codec_tables as ct
+    return [ct.NLEAVES[k] for k in row["kinds"]]
+
+
 def gen_histories(ctx, impl, n):
     """Histories of ONE Subroutine object: serialize, mutate in place, serialize again
     (a cached header / cached command bytes / a buffer sized per list entry would show here)."""
